@@ -14,9 +14,10 @@ RULE = ("seeded circuits (several nodes per type, hierarchy 0-2) in which a rand
         "to 2..9 steps (incl. non-integer multiples of dt away from rounding ties), mixed with undelayed edges, several delays "
         "per source variable, shared sources and targets, vectorize on/off; Euler trajectories of all state variables are "
         "compared with the reference recurrence that delivers source[k - round(d/dt)] (zero before the start) scaled by the "
-        "weight; M-delay records the branch taken; non-trivial = at least one delayed edge whose source is not constant; "
+        "weight; M-delay records the branch taken; family matrix: Population/Connectivity circuits with delayed matrix edges;  non-trivial = at least one delayed edge whose source is not constant; "
         "distinct = distinct spec hash")
-DECIDING = ['rows_compared', 'delayed_edges', 'mixed_delay_sources', 'vectorized_runs', 'several_delays_per_source']
+DECIDING = ['rows_compared', 'delayed_edges', 'mixed_delay_sources', 'vectorized_runs', 'several_delays_per_source',
+            'matrix_delayed_edges', 'matrix_delays_off_grid']
 ASSUMPTIONS = ['delays round to at least two steps (shorter delays are deliberately neglected by the implementation)',
                'zero pre-history of the ring buffer', 'Euler solver (one RHS call per step)']
 CASE_TIMEOUT = 240
@@ -33,11 +34,16 @@ def plan(tier, seed):
     for feat in FOCUS:
         fam = 'probe:' + feat if feat in opened else 'main'
         cases += [{'family': fam, 'cseed': rnd.randrange(1 << 30), 'want': feat} for _ in range(k)]
+    # matrix (Connectivity) edges with discrete delays on and off the step grid (machinery shared with C16)
+    cases += [{'family': 'matrix', 'cseed': rnd.randrange(1 << 30)} for _ in range(40 if tier == 'quick' else 1000)]
     return cases
 
 
 def warmup(ctx):
     import pyrates  # noqa
+    import mpmath
+    mpmath.mp.dps = 40
+    ctx['mp'] = mpmath
     ctx['open_risks'] = open_risks(PID)
     ctx['excluded'] = open_risks('C04') | open_risks('C01')
     monitors.install()
@@ -128,7 +134,35 @@ def make_case(case, ctx):
     return spec, f, r, solver, vec
 
 
+def run_matrix_case(case, ctx):
+    """PopulationTemplate/Connectivity circuit whose connections carry discrete delays (no spread, no coupling function):
+    population outputs against the reference recurrence of the explicit network (vp/props/c16.py does the comparison)."""
+    from vp.props import c16
+    if case.get('spec') is not None:
+        return c16.run_case(case, ctx)
+    rnd = random.Random(case['cseed'])
+    opened16 = open_risks('C16')
+    for attempt in range(300):
+        plan_, risk = c16.gen_pop_case(rnd, 'conn_delay', opened16)
+        dl = [c for c in plan_['conns'] if c.get('delay')]
+        if dl and not any(c.get('spread') or c['kind'] == 'coupling' for c in plan_['conns']):
+            break
+    else:
+        raise RuntimeError('generator could not satisfy the constraints')
+    res = c16.run_case({'cseed': case['cseed'], 'spec': plan_, 'case_risk': []}, ctx)
+    res['risk'] = []
+    res['case_extra'] = {'case_risk': []}
+    m = res.setdefault('mech', {})
+    m['matrix_delayed_edges'] = len(dl)
+    m['matrix_delays_off_grid'] = sum(1 for c in dl if c.get('off_grid'))
+    m['delayed_edges'] = m.get('delayed_edges', 0) + len(dl)
+    res['features'] = list(res.get('features', [])) + ['matrix_delay']
+    return res
+
+
 def run_case(case, ctx):
+    if case.get('family') == 'matrix':
+        return run_matrix_case(case, ctx)
     spec, feats, risk, solver, vec = make_case(case, ctx)
     mech = {}
     res = {'features': feats + ['vec' if vec else 'novec', solver], 'risk': risk, 'sig': stable_hash([spec, vec, solver]),
@@ -183,6 +217,6 @@ def run_case(case, ctx):
 MANIFEST = {
     'technique': 'reference-recurrence monitor on Euler trajectories of generated circuits with mixed delayed/undelayed edges',
     'level_text': 'Generated circuits with random subsets of delayed edges (2-9 steps, incl. delays that are not multiples of dt), shared sources and targets, vectorize on/off are simulated with Euler and every state variable trajectory is compared (1e-7) with the reference recurrence in which each edge delivers weight*source[k-round(d/dt)] with zero pre-history; an off-by-one in any buffer slot, a delay applied to the wrong edge or a shifted undelayed edge is an O(1) deviation because sources are non-constant. Held on observed circuits only.',
-    'level_note': 'Trusted: vp/ref.py delay recurrence. Delays below two steps are outside the property. Connectivity (matrix) delays are covered under C16.',
+    'level_note': 'Trusted: vp/ref.py delay recurrence. Delays below two steps are outside the property. Connectivity (matrix) delays: family `matrix` (population circuits with delayed weight-matrix / scalar-weight connections, delays on and off the step grid, compared unit by unit with the reference recurrence of the explicit network; generator and comparison shared with C16).',
 }
 # MANIFEST-END
